@@ -14,7 +14,7 @@ REQUIRED = ["CifModel.C17_dup_ustrings_balanced", "CifModel.C17_clone_balanced",
             "CifModel.C17_fault_modelled", "CifModel.C17_fault_path_independent",
             "CifModel.C17_clone_any_balanced", "CifModel.C17_deser_any_balanced", "CifModel.C17_free_any_balanced",
             "CifModel.C17_clone_any_extends", "CifModel.C17_get_packets_balanced", "CifModel.C17_next_packet_balanced",
-            "CifModel.C17_loop_header_balanced"]
+            "CifModel.C17_loop_header_balanced", "CifModel.C17_get_all_loops_balanced"]
 GEN = ["ErrCodes", "Schema", "Uthash"]
 FAMILIES = ["ladder", "oom", "storefault"]
 TRUSTED_BASE = [
